@@ -595,17 +595,22 @@ def digest_coverage(ck, prog):
         f = prog.fn(fname)
         ck.saw(f)
         g = flow(f)
-        hs = [(b, t) for b, t in f.calls() if (callee_name(t) or "").endswith("ElementHasher::hash_elements")]
-        if not hs:
-            raise AnchorError(f"{fname}: no hash_elements call")
+        # the digest is the function's result: follow it back through hash_elements (here or in a helper the function delegates
+        # to — deep return summaries) to the fields of the frame it depends on
         covered = set()
-        for b, t in hs:
-            sl = g.walk(ops=[t["args"][0]], at=(b, T), deep=deep)
+        rets = [b for b, blk in enumerate(f.blocks) if blk["t"]["k"] == "return"]
+        hashed = False
+        for b in rets:
+            sl = g.walk(ops=[{"copy": {"l": 0}}], at=(b, T), deep=deep)
             covered |= {fl for (a, fl) in g.fields_in(sl) if a == adt}
+            names = g.callee_names_in(sl) | {n[1] for n in sl if n[0] == "cn"}
+            hashed = hashed or any(n.endswith("ElementHasher::hash_elements") for n in names)
+        if not hashed:
+            raise AnchorError(f"{fname}: the result does not originate in hash_elements")
         for fld in data_fields:
             ck.ob("E3.absorbed", f"digest-covers:{fname.split('::')[-1]}:{fld}", fld in covered,
                   f"the digest computed by {fname.split('::')[-2]}::{fname.split('::')[-1]} (absorbed into the coin for the "
-                  f"OOD trace frame) depends on TraceOodFrame.{fld}", loc=f.loc(hs[0][0], "T"))
+                  f"OOD trace frame) depends on TraceOodFrame.{fld}", loc=f.loc())
 
 
 def seed_field_coverage(ck, prog):
